@@ -184,6 +184,13 @@ fn main() {
         n_cases += 1;
     });
     // seeded: random source lengths and spare capacities around every N
+    enumerate_big(|c| {
+        if c.pan != -1 {
+            return;
+        }
+        dist("big");
+        do_case(&c);
+    });
     let mut rng = Rng::new(a.seed);
     let count = if thorough { 6000 } else { 600 };
     for _ in 0..count {
